@@ -202,7 +202,18 @@ def modes(ctx, case):
     libdir = ctx.choose([None, '/opt/wl/lib'], 'libdir') if part == 'child' else '/opt/wl/lib'
     base_env = ctx.choose([{'PATH': '/bin', 'HOME': '/h'}, {'PATH': '/bin', 'LD_LIBRARY_PATH': '/usr/lib/x', 'WAYLAND_DEBUG': 'server'}], 'env') if part == 'child' else {'PATH': '/bin'}
     status = ctx.fresh_int('status', 0, 256)
-    words = [symx_tok('prog')] + ([ctx.choose([symx_tok('w%d' % k), '-r', '-g', '--supress', '-l'], 'word%d' % k) for k in range(2)] if part == 'child' else ['-g', symx_tok('w')])
+    if part == 'child':
+        shape = ctx.choose(['three', 'one', 'one-with-spaces', 'two-with-quotes'], 'argv_shape')
+        if shape == 'three':
+            words = [symx_tok('prog')] + [ctx.choose([symx_tok('w%d' % k), '-r', '-g', '--supress', '-l'], 'word%d' % k) for k in range(2)]
+        elif shape == 'one':
+            words = [symx_tok('prog')]
+        elif shape == 'one-with-spaces':
+            words = [symx_tok('/opt/my programs/the prog')]
+        else:
+            words = [symx_tok('prog'), symx_tok('say "hi" it\'s; $(x) `y`')]
+    else:
+        words = [symx_tok('prog'), '-g', symx_tok('w')]
 
     via_cli = ctx.choose([False, True], 'via_command_line') if part == 'child' else False
     if via_cli:
